@@ -9,6 +9,9 @@ EXTENDS RefreshWorker, Json, CSV
 
 CONSTANT CancelUpTo   \* the driver cancels the Start context only while at most this many ticks were delivered
 
+CONSTANT CtxKinds   \* error kinds tied to the refresh context: used for the first two periodic refreshes (one per run)
+                    \* and for the final one, in runs without further Shutdown calls / Start-context cancel
+
 CONSTANT ExtraChoices   \* how many further Shutdown calls the driver makes (chosen per run)
 
 VARIABLES whist,
@@ -26,12 +29,15 @@ WGNext ==
     \/ Sleep /\ whist' = Append(whist, <<"sleep", timerD'>>)
     \/ fires < MaxTicks /\ DeliverTick /\ whist' = Append(whist, <<"tick">>)
     \/ \E o \in RefOutcomes : Refresh(o) /\ whist' = Append(whist, RefEv(Last(refs'), Len(refs')))
+          /\ (o \in CtxKinds => (Len(refs) <= 1 /\ xtarget = 0 /\ sctx = "live"
+                                 /\ \A k \in 1..Len(refs) : refs[k].out \notin CtxKinds))
     \/ HandleError /\ whist' = Append(whist, <<"handle", Last(handled')>>)
     \* the application cancels the Start context while the worker is parked
     \/ lp = "waiting" /\ timer = "pending" /\ sp = "none" /\ ticks <= CancelUpTo /\ xtarget = 0 /\ CancelStart
        /\ whist' = Append(whist, <<"cancel">>)
     \/ lp = "waiting" /\ timer = "pending" /\ Shutdown /\ whist' = Append(whist, <<"shutdown">>)
     \/ \E o \in RefOutcomes : FinalRefresh(o) /\ whist' = Append(whist, RefEv(Last(refs'), Len(refs')))
+          /\ (o \in CtxKinds => (xtarget = 0 /\ sctx = "live"))
     \/ WindowTick /\ whist' = Append(whist, <<"tick">>)     \* offered by the driver during the final refresh; never enabled
     \/ ShutdownReturn /\ whist' = Append(whist, <<"ret", result'>>)
     \/ sp = "returned" /\ SeeDone /\ UNCHANGED whist
